@@ -240,10 +240,12 @@ pub struct ScopeCheck<'a> {
     pub doc: &'a DocTables,
     pub kind: RoleKind,
     pub cond: &'a BTreeMap<String, bool>,
+    /// the run was made under the hypothesis `no bound(...) is given`: every explicit level continues, its flag is not an atom
+    pub assume_continue: bool,
 }
 
 impl<'a> ScopeCheck<'a> {
-    fn default_of(&self, place: &str) -> Option<bool> { self.cond.get(&format!("{place}.default")).copied() }
+    fn default_of(&self, place: &str) -> Option<bool> { self.cond.get(&format!("{place}.default")).copied().or(if self.assume_continue { Some(true) } else { None }) }
 
     /// Consume the explicit-bound pushes of one scope segment. `pushes`: the segment's Push nodes in order.
     /// Returns Ok(use_bounds after the segment) or Err(description).
